@@ -171,11 +171,6 @@ def callOf : Op α → Out α → Option (Call α)
 def Mon.trace (cfg : MonCfg) (rnd : α → α) (m : Mon α) (ops : List (Op α)) : List (Call α) :=
   (List.zip ops (Mon.run cfg rnd m ops).2).filterMap fun p => callOf p.1 p.2
 
-/-- the `reset` supplies every one of the `reset_keywords` (vacuous for a `step`) -/
-def Op.kwOk (cfg : MonCfg) : Op α → Bool
-  | .reset kw => cfg.resetKeys.all fun k => (kvGet kw k).isSome
-  | .step _ _ _ _ => true
-
 /-- the info of an episode-ending `step` has every one of the `info_keywords` (vacuous for a `reset`) -/
 def Op.infoOk (cfg : MonCfg) : Op α → Bool
   | .reset _ => true
